@@ -484,6 +484,30 @@ Fixpoint no_cr (s : string) : bool :=
   | String a r => andb (negb (Ascii.eqb a cr)) (no_cr r)
   end.
 
+Lemma clean_line_cons : forall a l, Ascii.eqb a cr = false ->
+  clean_line (String a l) = String (if Ascii.eqb (clean_byte a) cr then nl else clean_byte a) (clean_line l).
+Proof.
+  intros a l H. unfold clean_line. cbn [smap].
+  destruct (clean_byte_eol a) as [_ E]. rewrite replace_crlf_cons by (rewrite E; auto).
+  unfold replace_cr. cbn [smap]. reflexivity.
+Qed.
+
+(* writing every LF of a file as CR LF does not change the lines MontePy iterates over *)
+Theorem file_lines_crlf : forall s, no_cr s = true -> file_lines (to_crlf s) = file_lines s.
+Proof.
+  unfold file_lines. induction s; intros H; auto.
+  cbn [no_cr] in H. apply andb_true_iff in H. destruct H as [Ha Hs]. apply negb_true_iff in Ha.
+  specialize (IHs Hs). cbn [to_crlf split_lines].
+  destruct (Ascii.eqb a nl) eqn:En.
+  - apply Ascii.eqb_eq in En. subst a.
+    cbn [split_lines]. change (Ascii.eqb cr nl) with false. cbv iota.
+    cbn [split_lines]. rewrite Ascii.eqb_refl. cbn [map]. rewrite IHs. reflexivity.
+  - cbn [split_lines]. rewrite En.
+    destruct (split_lines (to_crlf s)) as [|l ls]; destruct (split_lines s) as [|l' ls']; cbn [map] in *;
+      try discriminate; auto.
+    injection IHs as E1 E2. rewrite !clean_line_cons by auto. rewrite E1, E2. reflexivity.
+Qed.
+
 (* ================================================================== D  is_comment against rule S5 *)
 Definition hb (r : string) : bool := match r with EmptyString => false | String b _ => is_blank b end.
 Definition endblank (r : string) : bool := match r with EmptyString => true | String b _ => is_blank b end.
@@ -1216,6 +1240,29 @@ Proof.
     apply ends_with_blanks_body; auto.
 Qed.
 
+Lemma start_blanks : forall n b, head_ok b = true ->
+  all_blank (takeS 5 (blanks n b)) = negb (Nat.ltb n 5).
+Proof.
+  intros n b H. destruct b as [|c t]; [discriminate|]. cbn [head_ok] in H.
+  apply andb_true_iff in H. destruct H as [H1 _]. apply negb_true_iff in H1.
+  destruct (Nat.ltb n 5) eqn:E.
+  - apply Nat.ltb_lt in E. rewrite takeS_blanks_le by lia. rewrite all_blank_blanks.
+    destruct (5 - n) eqn:E2; [lia|]. simpl. rewrite H1. reflexivity.
+  - apply Nat.ltb_ge in E. rewrite takeS_blanks_ge by lia. rewrite all_blank_blanks. reflexivity.
+Qed.
+
+Lemma pk_indent : forall b n m, head_ok b = true -> Nat.ltb n 5 = Nat.ltb m 5 ->
+  c_led (blanks n b) = false -> c_led (blanks m b) = false ->
+  contains "#"%char (takeS 5 (blanks n b)) = false -> contains "#"%char (takeS 5 (blanks m b)) = false ->
+  same_fix (pk (blanks n b)) (pk (blanks m b)).
+Proof.
+  intros b n m Hh Hnm Hc1 Hc2 Hh1 Hh2.
+  destruct (pk_cont b n Hh Hc1) as (A1 & A2 & A3 & A4 & A5 & A6).
+  destruct (pk_cont b m Hh Hc2) as (B1 & B2 & B3 & B4 & B5 & B6).
+  unfold same_fix. rewrite A1, A2, A3, A4, A5, A6, B1, B2, B3, B4, B5, B6, Hh1, Hh2.
+  rewrite !start_blanks by auto. rewrite Hnm. repeat split; reflexivity.
+Qed.
+
 Lemma pk_dollar : forall a t, data_line a -> contains "$"%char a = false ->
   ends_with amp2 (rstrip_blanks a) = false ->
   contains "#"%char (takeS 5 a) = false -> contains "#"%char (takeS 5 (a ++ String "$"%char t)) = false ->
@@ -1302,6 +1349,13 @@ Inductive data_step : list string -> list string -> Prop :=
     (* LF -> CR LF *)
     no_eol x = true ->
     data_step (pre ++ [x ++ lf] ++ post) (pre ++ [x ++ crlf] ++ post)
+| DS_indent : forall pre post b n m e,
+    (* the indentation of a line, on either side of column 5 *)
+    all_plain b = true -> eol e -> head_ok b = true ->
+    Nat.ltb n 5 = Nat.ltb m 5 ->
+    c_led (blanks n b) = false -> c_led (blanks m b) = false ->
+    contains "#"%char (takeS 5 (blanks n b)) = false -> contains "#"%char (takeS 5 (blanks m b)) = false ->
+    data_step (pre ++ [blanks n b ++ e] ++ post) (pre ++ [blanks m b ++ e] ++ post)
 | DS_blank : forall pre post x y,
     (* what a blank line consists of *)
     raw_blank x = true -> raw_blank y = true ->
@@ -1423,6 +1477,12 @@ Proof.
     + rewrite all_printable_app. cbn [all_printable]. rewrite H, H0. reflexivity.
   - (* DS_eol *)
     rewrite (lc_same w (x ++ lf) (x ++ crlf)); auto. rewrite clean_line_crlf; auto.
+  - (* DS_indent *)
+    assert (all_plain (blanks n b) = true) as Hpn by (rewrite all_plain_blanks; auto).
+    assert (all_plain (blanks m b) = true) as Hpm by (rewrite all_plain_blanks; auto).
+    rewrite (lc_plain w (blanks n b) e) by (auto; apply (lim_plain w (blanks n b) e); auto).
+    rewrite (lc_plain w (blanks m b) e) by (auto; apply (lim_plain w (blanks m b) e); auto).
+    apply seg_same. apply pk_indent; auto.
   - (* DS_blank *)
     apply seg_blank; rewrite raw_blank_class; auto.
 Qed.
@@ -1484,13 +1544,63 @@ Proof.
   destruct (front_read fr ti d H) as [E1 E2]. rewrite E1, E2, map_map. reflexivity.
 Qed.
 
+(* ---- the top-level file is read up to the blank line that ends its third block *)
+Fixpoint nblank (ks : list lk) : nat :=
+  match ks with
+  | [] => 0
+  | k :: r => (if k_blank k then 1 else 0) + nblank r
+  end.
+
+Definition stops (s : ast) : Prop := a_top s = true -> 3 <= a_bc s -> a_done s = true.
+
+Lemma astep_stops : forall k s o s1, stops s -> astep k s = (o, Some s1) ->
+  stops s1 /\ a_top s1 = a_top s /\
+  (a_done s = false -> a_bc s1 = (if k_blank k then 1 else 0) + a_bc s).
+Proof.
+  intros k s o s1 Hq H. unfold astep in H. destruct (a_done s) eqn:Ed.
+  - inversion H; subst. repeat split; auto. intro; discriminate.
+  - destruct (k_blank k).
+    + inversion H; subst. cbn [a_top a_bc a_done]. repeat split; auto.
+      intros Ht Hb. cbn [a_top a_bc a_done] in *. rewrite Ht, andb_true_r.
+      change (Nat.leb 3 (S (a_bc s)) = true). apply Nat.leb_le. exact Hb.
+    + destruct (k_hash k); inversion H; subst. cbn [a_top a_bc a_done]. repeat split; auto.
+      intros Ht Hb. cbn [a_top a_bc] in *. specialize (Hq Ht Hb). congruence.
+Qed.
+
+Lemma tail_ignored : forall ks s t t', stops s -> a_top s = true -> 3 <= a_bc s + nblank ks ->
+  arun (ks ++ t)%list s = arun (ks ++ t')%list s.
+Proof.
+  induction ks; intros s t t' Hq Ht Hb.
+  - cbn [nblank] in Hb. rewrite Nat.add_0_r in Hb. cbn [app].
+    rewrite !arun_done by (apply Hq; auto). reflexivity.
+  - destruct (a_done s) eqn:Ed; [rewrite !arun_done by auto; reflexivity|].
+    cbn [app arun]. destruct (astep a s) as [o [s1|]] eqn:E; auto.
+    destruct (astep_stops a s o s1 Hq E) as (Hq1 & Ht1 & Hbc). specialize (Hbc Ed).
+    rewrite (IHks s1 t t'); auto; try congruence.
+    cbn [nblank] in Hb. rewrite Hbc. lia.
+Qed.
+
+Lemma stops_s0 : stops s0.
+Proof. intros _ H. cbn in H. lia. Qed.
+
+Definition nblank_raw (d : list string) : nat := List.length (filter raw_blank d).
+
+Lemma nblank_map : forall w d, nblank (map (lc w) d) = nblank_raw d.
+Proof.
+  induction d; auto. cbn [map nblank]. rewrite raw_blank_class, IHd. unfold nblank_raw. cbn [filter].
+  destruct (raw_blank a); reflexivity.
+Qed.
+
 (* one elementary re-layout of a file *)
 Inductive layout_step : list string -> list string -> Prop :=
 | LS_data : forall fr ti d d',
     front fr ti -> data_step d d' -> layout_step (fr ++ d)%list (fr ++ d')%list
 | LS_front : forall fr fr' ti d,
     (* message block added, removed or changed; line ends and trailing blanks of the title line *)
-    front fr ti -> front fr' ti -> layout_step (fr ++ d)%list (fr' ++ d)%list.
+    front fr ti -> front fr' ti -> layout_step (fr ++ d)%list (fr' ++ d)%list
+| LS_tail : forall fr ti d t t',
+    (* anything after the blank line that ends the third block *)
+    front fr ti -> 3 <= nblank_raw d -> layout_step (fr ++ d ++ t)%list (fr ++ d ++ t')%list.
 
 Lemma within_limit_app : forall w a b, within_limit w (a ++ b)%list = true -> within_limit w b = true.
 Proof.
@@ -1506,6 +1616,9 @@ Proof.
   - rewrite !(read_lines_front w fr ti) by auto.
     rewrite (data_step_sound w d d' H0); eauto using within_limit_app, inv_s0.
   - rewrite (read_lines_front w fr ti), (read_lines_front w fr' ti) by auto. reflexivity.
+  - rewrite !(read_lines_front w fr ti) by auto. rewrite !map_app.
+    rewrite (tail_ignored (map (lc w) d) s0 (map (lc w) t) (map (lc w) t')); auto using stops_s0.
+    rewrite nblank_map. cbn. lia.
 Qed.
 
 (* layouts reachable from each other by elementary re-layouts, every file on the way within the line limit *)
